@@ -633,7 +633,12 @@ def standard_check(pid, argv, *, gen_scripts, modules, driver, extra_sources, ha
     elif driver:
         broken.append('driver executable missing')
     if extra_stage is not None:
-        extra_stage(rep, broken, exe, tier)
+        try:
+            extra_stage(rep, broken, exe, tier)
+        except Exception as e:          # unreadable output of the (possibly modified) real code: a broken tie,
+            import traceback            # never a traceback instead of a VIOLATION line
+            broken.append(f'extra stage could not process the real code\'s output: {e!r} '
+                          f'({traceback.format_exc().strip().splitlines()[-3].strip()[:200]})')
     broken.extend(GEN_ERRORS)
     rep.cov['distinct_nontrivial'] = len(distinct)
     if broken and not found_input and exe:
